@@ -1,2 +1,316 @@
-(* Properties/C06.v — property theorems only. (stub) *)
+(* Properties/C06.v — decoding is independent of how the bytes are delivered;
+   File = Reader.  Only statements; every proof is [exact <lemma>]
+   (Proofs/StreamProofs.v, StreamProofsB.v).
+
+   Model/Stream.v: [of_schedule] (a read schedule = the list of the successive
+   Read results; the buffered readers hand on its concatenation), [file_run] /
+   [file_items] (File = open + Reader + Close; gzip is an abstract lossless
+   transport, the identity on the content), [crlf] (every LF replaced by CR LF),
+   [fasta_file] ... [newick_file] (the files the writers produce).
+   The readers are the formats' own models: Fasta.decode, Fastq.decode,
+   Sam.reader_header / Sam.reader, Bed.decode, Newick.decode — each a function
+   of (delivered bytes, terminal condition).
+
+   What is a theorem here and what is tested:
+   * [C06_schedule_irrelevant_*], [C06_file_eq_reader_*], [C06_file_open_error_*]
+     are true BY CONSTRUCTION of the stream contract of DESIGN.md section 3: the
+     model readers see the stream only as "the bytes in order, then the terminal
+     condition once", so no model function has the schedule as an input.  Their
+     content is that the Go code reaches the bytes only through bufio.Reader /
+     bufio.Scanner (which re-assemble tokens across short reads) and that File
+     delegates to Reader; that is what the correspondence run of C06 tests
+     (kinds c06_<fmt>: every 2-partition, one-byte reads, zero-length reads,
+     data together with EOF, all 2^(n-1) partitions of tiny inputs; c06_file_<fmt>:
+     plain file, gzip file, missing path), with the implementation-vs-
+     implementation oracles "chunked == whole" and "File == Reader".
+   * [C06_crlf_*] are real theorems about the readers: well-formed input (the
+     writer output of in-domain records) decodes to the same items with LF and
+     with CR LF line terminators. *)
+From Coq Require Import String.
 From Bio Require Import Base.
+From Bio.Model Require Fasta Fastq Sam Bed Newick.
+From Bio.Model Require Import Stream.
+From Bio.Spec Require FastaSpec FastqSpec SamSpec BedSpec NewickSpec.
+From Bio.Proofs Require Import StreamProofs StreamProofsB.
+Open Scope N_scope.
+
+(* ---- read schedules (by construction; see the header) ------------------------ *)
+
+Theorem C06_schedule_irrelevant_fasta : forall cs cs' t, concat cs = concat cs' ->
+  Fasta.decode (of_schedule cs) t = Fasta.decode (of_schedule cs') t.
+Proof. exact (schedule_irrelevant Fasta.decode). Qed.
+Print Assumptions C06_schedule_irrelevant_fasta.
+
+Theorem C06_schedule_irrelevant_fastq : forall cs cs' t, concat cs = concat cs' ->
+  Fastq.decode (of_schedule cs) t = Fastq.decode (of_schedule cs') t.
+Proof. exact (schedule_irrelevant Fastq.decode). Qed.
+Print Assumptions C06_schedule_irrelevant_fastq.
+
+Theorem C06_schedule_irrelevant_sam : forall o cs cs' t, concat cs = concat cs' ->
+  Sam.reader_header o (of_schedule cs) t = Sam.reader_header o (of_schedule cs') t
+  /\ Sam.reader o (of_schedule cs) t = Sam.reader o (of_schedule cs') t.
+Proof.
+  exact (fun o cs cs' t H => conj (schedule_irrelevant (Sam.reader_header o) cs cs' t H)
+                                  (schedule_irrelevant (Sam.reader o) cs cs' t H)).
+Qed.
+Print Assumptions C06_schedule_irrelevant_sam.
+
+Theorem C06_schedule_irrelevant_bed : forall cs cs' t, concat cs = concat cs' ->
+  Bed.decode (of_schedule cs) t = Bed.decode (of_schedule cs') t.
+Proof. exact (schedule_irrelevant Bed.decode). Qed.
+Print Assumptions C06_schedule_irrelevant_bed.
+
+Theorem C06_schedule_irrelevant_newick : forall o cs cs' t, concat cs = concat cs' ->
+  Newick.decode o (of_schedule cs) t = Newick.decode o (of_schedule cs') t.
+Proof. exact (fun o => schedule_irrelevant (Newick.decode o)). Qed.
+Print Assumptions C06_schedule_irrelevant_newick.
+
+(* ---- CR LF line terminators ---------------------------------------------------- *)
+
+(* FASTA: the records written one after the other by Write (names free of
+   CR/LF, sequences free of CR/LF/'>'; any lengths, so lines of 80 and a
+   shorter last line) *)
+Theorem C06_crlf_fasta : forall rs, Forall FastaSpec.fa_ok rs ->
+  Fasta.decode (crlf (fasta_file rs)) TEOF = Fasta.decode (fasta_file rs) TEOF.
+Proof. exact crlf_fasta. Qed.
+Print Assumptions C06_crlf_fasta.
+
+Theorem C06_crlf_fasta_records : forall rs, Forall FastaSpec.fa_ok rs ->
+  Fasta.decode (crlf (fasta_file rs)) TEOF = map Rec rs.
+Proof. exact crlf_fasta_records. Qed.
+Print Assumptions C06_crlf_fasta_records.
+
+(* FASTQ: for ANY text without CR (well-formed or not) and either terminal
+   condition the items are the same with LF and CR LF ... *)
+Theorem C06_crlf_fastq_any : forall s t, ~ In CR s ->
+  Fastq.decode (crlf s) t = Fastq.decode s t.
+Proof. exact crlf_fastq_any. Qed.
+Print Assumptions C06_crlf_fastq_any.
+
+(* ... in particular for written files of in-domain records *)
+Theorem C06_crlf_fastq : forall rs t, Forall FastqSpec.fq_ok rs ->
+  Fastq.decode (crlf (fastq_file rs)) t = Fastq.decode (fastq_file rs) t.
+Proof. exact crlf_fastq. Qed.
+Print Assumptions C06_crlf_fastq.
+
+Theorem C06_crlf_fastq_records : forall rs, Forall FastqSpec.fq_ok rs ->
+  Fastq.decode (crlf (fastq_file rs)) TEOF = map Rec rs.
+Proof. exact crlf_fastq_records. Qed.
+Print Assumptions C06_crlf_fastq_records.
+
+(* SAM: for ANY text none of whose LF-terminated lines ends in CR ... *)
+Theorem C06_crlf_sam_any : forall o s t,
+  Forall (fun l => drop_cr l = l) (fst (rs_lines s)) ->
+  Sam.reader_header o (crlf s) t = Sam.reader_header o s t.
+Proof. exact crlf_sam_any. Qed.
+Print Assumptions C06_crlf_sam_any.
+
+(* ... in particular for a file of header lines and written records *)
+Theorem C06_crlf_sam : forall o hs rs t,
+  Forall SamSpec.header_ok hs -> Forall (SamSpec.sam_ok o) rs ->
+  Sam.reader_header o (crlf (sam_file o hs rs)) t = Sam.reader_header o (sam_file o hs rs) t.
+Proof. exact crlf_sam. Qed.
+Print Assumptions C06_crlf_sam.
+
+Theorem C06_crlf_sam_reader : forall o hs rs t,
+  Forall SamSpec.header_ok hs -> Forall (SamSpec.sam_ok o) rs ->
+  Sam.reader o (crlf (sam_file o hs rs)) t = Sam.reader o (sam_file o hs rs) t.
+Proof. exact crlf_sam_reader. Qed.
+Print Assumptions C06_crlf_sam_reader.
+
+(* BED *)
+Theorem C06_crlf_bed_any : forall s t,
+  Forall (fun l => drop_cr l = l) (fst (rs_lines s)) ->
+  Bed.decode (crlf s) t = Bed.decode s t.
+Proof. exact crlf_bed_any. Qed.
+Print Assumptions C06_crlf_bed_any.
+
+Theorem C06_crlf_bed : forall bs w t, Forall BedSpec.bed_ok bs -> bed_file bs = Ok w ->
+  Bed.decode (crlf w) t = Bed.decode w t.
+Proof. exact crlf_bed. Qed.
+Print Assumptions C06_crlf_bed.
+
+(* Newick: a file of written trees, one per line.  A quoted name may itself
+   contain LF (C05), and replacing that LF changes the name, so the trees are
+   those whose names contain no LF ([lf_free_names]; any other byte, CR
+   included, is allowed) ... *)
+Theorem C06_crlf_newick : forall o ts,
+  Forall (NewickSpec.floats_ok o) ts -> Forall lf_free_names ts ->
+  Newick.decode o (crlf (newick_file o ts)) TEOF = Newick.decode o (newick_file o ts) TEOF.
+Proof. exact crlf_newick. Qed.
+Print Assumptions C06_crlf_newick.
+
+(* ... and for arbitrary names: CR LF instead of LF (or any whitespace instead
+   of any other) as the line terminator between trees *)
+Theorem C06_newick_terminator_irrelevant : forall o sep sep' ts,
+  NewickSpec.ws_string sep -> NewickSpec.ws_string sep' -> Forall (NewickSpec.floats_ok o) ts ->
+  Newick.decode o (concat (map (fun t => Newick.marshal o t ++ sep) ts)) TEOF
+  = Newick.decode o (concat (map (fun t => Newick.marshal o t ++ sep') ts)) TEOF.
+Proof. exact newick_separator_irrelevant. Qed.
+Print Assumptions C06_newick_terminator_irrelevant.
+
+(* ---- File (by construction; see the header) ------------------------------------- *)
+
+Theorem C06_file_eq_reader_fasta : forall gz w,
+  file_items true gz Fasta.decode w = Fasta.decode w TEOF.
+Proof. exact (fun gz => file_eq_reader [ErrItem] gz Fasta.decode). Qed.
+Print Assumptions C06_file_eq_reader_fasta.
+
+Theorem C06_file_open_error_fasta : forall gz w,
+  file_items false gz Fasta.decode w = [ErrItem].
+Proof. exact (fun gz => file_open_error [ErrItem] gz Fasta.decode). Qed.
+Print Assumptions C06_file_open_error_fasta.
+
+Theorem C06_file_eq_reader_fastq : forall gz w,
+  file_items true gz Fastq.decode w = Fastq.decode w TEOF.
+Proof. exact (fun gz => file_eq_reader [ErrItem] gz Fastq.decode). Qed.
+Print Assumptions C06_file_eq_reader_fastq.
+
+Theorem C06_file_open_error_fastq : forall gz w,
+  file_items false gz Fastq.decode w = [ErrItem].
+Proof. exact (fun gz => file_open_error [ErrItem] gz Fastq.decode). Qed.
+Print Assumptions C06_file_open_error_fastq.
+
+(* sam.File and sam.FileHeader *)
+Theorem C06_file_eq_reader_sam : forall o gz w,
+  file_items true gz (Sam.reader o) w = Sam.reader o w TEOF
+  /\ file_items true gz (Sam.reader_header o) w = Sam.reader_header o w TEOF.
+Proof.
+  exact (fun o gz w => conj (file_eq_reader [ErrItem] gz (Sam.reader o) w)
+                            (file_eq_reader [ErrItem] gz (Sam.reader_header o) w)).
+Qed.
+Print Assumptions C06_file_eq_reader_sam.
+
+Theorem C06_file_open_error_sam : forall o gz w,
+  file_items false gz (Sam.reader o) w = [ErrItem]
+  /\ file_items false gz (Sam.reader_header o) w = [ErrItem].
+Proof.
+  exact (fun o gz w => conj (file_open_error [ErrItem] gz (Sam.reader o) w)
+                            (file_open_error [ErrItem] gz (Sam.reader_header o) w)).
+Qed.
+Print Assumptions C06_file_open_error_sam.
+
+Theorem C06_file_eq_reader_bed : forall gz w,
+  file_items true gz Bed.decode w = Bed.decode w TEOF.
+Proof. exact (fun gz => file_eq_reader [ErrItem] gz Bed.decode). Qed.
+Print Assumptions C06_file_eq_reader_bed.
+
+Theorem C06_file_open_error_bed : forall gz w,
+  file_items false gz Bed.decode w = [ErrItem].
+Proof. exact (fun gz => file_open_error [ErrItem] gz Bed.decode). Qed.
+Print Assumptions C06_file_open_error_bed.
+
+(* the Newick model reader returns an outcome (the reader can be asked whether
+   it panics; it never does, C05_no_panic) *)
+Theorem C06_file_eq_reader_newick : forall o gz w,
+  file_run (Ok [ErrItem]) true gz (Newick.decode o) w = Newick.decode o w TEOF.
+Proof. exact (fun o gz => file_eq_reader (Ok [ErrItem]) gz (Newick.decode o)). Qed.
+Print Assumptions C06_file_eq_reader_newick.
+
+Theorem C06_file_open_error_newick : forall o gz w,
+  file_run (Ok [ErrItem]) false gz (Newick.decode o) w = Ok [ErrItem].
+Proof. exact (fun o gz => file_open_error (Ok [ErrItem]) gz (Newick.decode o)). Qed.
+Print Assumptions C06_file_open_error_newick.
+
+(* ---- non-vacuity ---------------------------------------------------------------- *)
+
+(* FASTA: an 81-byte sequence (two lines) and a record without sequence *)
+Definition C06_fa : list Fasta.fasta :=
+  [ {| Fasta.name := bs ">a b"; Fasta.seq := repeat 65 81 |};
+    {| Fasta.name := []; Fasta.seq := [] |};
+    {| Fasta.name := bs "x"; Fasta.seq := bs "TT" |} ].
+Example C06_ex_fasta :
+  Forall FastaSpec.fa_ok C06_fa
+  /\ length (fasta_file C06_fa) = 97%nat /\ length (crlf (fasta_file C06_fa)) = 103%nat
+  /\ Fasta.decode (crlf (fasta_file C06_fa)) TEOF = map Rec C06_fa
+  /\ Fasta.decode (of_schedule [bs ">a"; []; bs ""; [LF; 65]; [LF]]) TEOF
+     = Fasta.decode (of_schedule [bs ">"; bs "a"; [LF]; [65; LF]]) TEOF.
+Proof.
+  split; [repeat constructor|]. vm_compute. repeat split.
+Qed.
+
+Definition C06_fq : list Fastq.fastq :=
+  [ {| Fastq.name := bs "@r 1"; Fastq.seq := bs "+"; Fastq.quals := bs "@" |};
+    {| Fastq.name := []; Fastq.seq := []; Fastq.quals := [] |} ].
+Example C06_ex_fastq :
+  Forall FastqSpec.fq_ok C06_fq
+  /\ ~ In CR (fastq_file C06_fq)
+  /\ Fastq.decode (crlf (fastq_file C06_fq)) TEOF = map Rec C06_fq
+  /\ crlf (fastq_file C06_fq) <> fastq_file C06_fq.
+Proof.
+  split; [repeat constructor|]. split; [|vm_compute; split; [reflexivity | discriminate]].
+  apply fastq_file_nocr. repeat constructor.
+Qed.
+
+(* the CR-free hypothesis of the "any text" form is needed: a name ending in CR *)
+Example C06_ex_fastq_cr_needed :
+  let s := bs "@a" ++ [CR; CR; LF] ++ bs "A" ++ [LF] ++ bs "+" ++ [LF] ++ bs "I" ++ [LF] in
+  Fastq.decode (crlf s) TEOF <> Fastq.decode s TEOF.
+Proof. vm_compute. discriminate. Qed.
+
+(* SAM: a header containing a CR in the middle and a quote, and a record *)
+Definition C06_sam_o : foracle := {| f_parse := []; f_fmt := [] |}.
+Definition C06_sam_r : Sam.sam :=
+  {| Sam.s_qname := bs """q"; Sam.s_flag := 4; Sam.s_rname := bs "*"; Sam.s_pos := 0; Sam.s_mapq := 0;
+     Sam.s_cigar := bs "*"; Sam.s_rnext := bs "*"; Sam.s_pnext := 0; Sam.s_tlen := 0;
+     Sam.s_seq := bs "AC"; Sam.s_qual := bs "!!"; Sam.s_tags := [(bs "XX", Sam.TI 7)] |}.
+Definition C06_sam_h : bytes := 64 :: bs "CO" ++ TAB :: bs "a" ++ CR :: bs "b""".
+Example C06_ex_sam :
+  Forall SamSpec.header_ok [C06_sam_h] /\ Forall (SamSpec.sam_ok C06_sam_o) [C06_sam_r]
+  /\ Sam.reader_header C06_sam_o (crlf (sam_file C06_sam_o [C06_sam_h] [C06_sam_r])) TEOF
+     = [Rec (Sam.Hdr C06_sam_h); Rec (Sam.Aln C06_sam_r)]
+  /\ Sam.reader_header C06_sam_o (sam_file C06_sam_o [C06_sam_h] [C06_sam_r]) TEOF
+     = [Rec (Sam.Hdr C06_sam_h); Rec (Sam.Aln C06_sam_r)].
+Proof.
+  split.
+  { constructor; [|constructor]. split; [eexists; reflexivity|]. split; [|reflexivity].
+    vm_compute. intuition discriminate. }
+  split.
+  { constructor; [|constructor]. SamSpec.sam_ok_example. }
+  vm_compute. split; reflexivity.
+Qed.
+
+Definition C06_bed1 : Bed.bed :=
+  {| Bed.b_n := 6; Bed.b_chrom := bs "chr""1"; Bed.b_start := 1%Z; Bed.b_end := 2%Z;
+     Bed.b_name := bs "a,b#"; Bed.b_score := (-5)%Z; Bed.b_strand := bs "+";
+     Bed.b_thick_start := 0%Z; Bed.b_thick_end := 0%Z; Bed.b_rgb := (0, 0, 0);
+     Bed.b_block_count := 0%Z; Bed.b_block_sizes := []; Bed.b_block_starts := [] |}.
+Example C06_ex_bed :
+  exists w, bed_file [C06_bed1; C06_bed1] = Ok w
+    /\ Bed.decode (crlf w) TEOF = [Rec C06_bed1; Rec C06_bed1]
+    /\ Bed.decode w TEOF = [Rec C06_bed1; Rec C06_bed1]
+    /\ file_items true true Bed.decode w = [Rec C06_bed1; Rec C06_bed1]
+    /\ file_items false true Bed.decode w = [ErrItem].
+Proof. eexists. split; [vm_compute; reflexivity|]. vm_compute. repeat split. Qed.
+
+(* Newick: a quoted name with a CR and a space, an exponent-format distance *)
+Definition C06_nw_o : foracle :=
+  {| f_parse := [(bs "1e-07", bs "1e-07")]; f_fmt := [(bs "1e-07", bs "1e-07")] |}.
+Definition C06_nw_t : Newick.tree :=
+  Newick.Node (bs "it's") (bs "0")
+    [Newick.Node (bs "a b") (bs "0") []; Newick.Node [120; 13; 121] (bs "1e-07") []].
+Example C06_ex_newick :
+  Forall (NewickSpec.floats_ok C06_nw_o) [C06_nw_t; C06_nw_t] /\ Forall lf_free_names [C06_nw_t; C06_nw_t]
+  /\ Newick.decode C06_nw_o (crlf (newick_file C06_nw_o [C06_nw_t; C06_nw_t])) TEOF
+     = Ok [Rec C06_nw_t; Rec C06_nw_t]
+  /\ crlf (newick_file C06_nw_o [C06_nw_t; C06_nw_t]) <> newick_file C06_nw_o [C06_nw_t; C06_nw_t].
+Proof.
+  assert (F : NewickSpec.floats_ok C06_nw_o C06_nw_t).
+  { unfold NewickSpec.floats_ok. vm_compute NewickSpec.dists.
+    repeat (apply Forall_cons;
+            [ let H := fresh "H" in intros H;
+              first [ vm_compute in H; discriminate H
+                    | clear H; vm_compute; repeat constructor; discriminate ] | ]);
+    apply Forall_nil. }
+  assert (L : lf_free_names C06_nw_t).
+  { unfold lf_free_names. vm_compute. repeat constructor; intuition discriminate. }
+  split; [repeat (apply Forall_cons; [exact F|]); apply Forall_nil|]. split; [repeat (apply Forall_cons; [exact L|]); apply Forall_nil|].
+  vm_compute. split; [reflexivity | discriminate].
+Qed.
+
+(* the LF-free hypothesis on names is needed: a name containing LF is changed *)
+Example C06_ex_newick_lf_name :
+  let t := Newick.Node [120; 10; 121] (bs "0") [] in
+  Newick.decode C06_nw_o (crlf (newick_file C06_nw_o [t])) TEOF
+  = Ok [Rec (Newick.Node [120; 13; 10; 121] (bs "0") [])].
+Proof. vm_compute. reflexivity. Qed.
